@@ -18,6 +18,8 @@ def run(ctx):
     pairs.run_pairs(ctx, "C03", pairs=[p for p in pairs.all_pairs() if "EMPTY" in p or "DELIVER" in p] + pairs.TRIPLES, sample=None if not ctx.quick else 230)
     n = 16 if ctx.quick else 120
     corelib.run_modes(ctx, "C03", [("flow", n), ("core", n // 2)])
+    if not ctx.quick:
+        corelib.repo_tests(ctx, "C03")
     ctx.cov["distinct_nontrivial"] = len(ctx.notes.get("event_kinds", {}))
     ctx.cov["rule"] = ("evaluations = hook/harness events of real executions checked step by step by TLC against "
                        "NsqdAbs; distinct = event kinds (spec actions) exercised")
